@@ -23,7 +23,13 @@ SCENARIOS = {
     'hang_first_and_last': ['hang', 'equal', 'hang'],
     'player_raises': ['equal', 'raises', 'equal'],
     'idle_kill_after_1': ['equal', 'equal', 'equal', 'equal'],
+    'helper_process': ['equal', 'helper', 'equal'],
 }
+
+
+def _helper(q, i):
+    q.put(('helped', i))
+
 
 
 def real_run(name, behaviours, recycle=3, timeout=1):
@@ -44,6 +50,13 @@ def real_run(name, behaviours, recycle=3, timeout=1):
                     os._exit(3)
                 elif b == 'raises':
                     raise RuntimeError('x')
+                elif b == 'helper':
+                    import multiprocessing
+                    q = multiprocessing.Queue()
+                    h = multiprocessing.Process(target=_helper, args=(q, i))
+                    h.start()        # allowed because the comparison worker is not a daemonic process
+                    assert q.get(True, 5) == ('helped', i)
+                    h.join()
                 elif b == 'different':
                     return ('changed', i)
             return (v, i)
@@ -89,7 +102,7 @@ def sim_run(name, behaviours, recycle=3, timeout=1):
         run = Run('X')
         sc = E.Scenario(tape, force_dedicated=True)
         sc.n = len(behaviours)
-        m = {'equal': 'equal', 'different': 'different', 'hang': 'worker_hang', 'exit': 'worker_abort', 'raises': 'operation_raises'}
+        m = {'equal': 'equal', 'different': 'different', 'hang': 'worker_hang', 'exit': 'worker_abort', 'raises': 'operation_raises', 'helper': 'spawns_helper'}
         sc.behaviours = [m[b] for b in behaviours]
         sc.recycle, sc.timeout, sc.keep, sc.jitter, sc.queue_delay, sc.slow_start, sc.preempt = recycle, float(timeout), False, 4, 0.0, 0.0, 0.0
         sc.duplicates, sc.consume, sc.data_extractor = False, 'full', False
